@@ -129,17 +129,45 @@ def run(rng, tier, res=None, want=("prim", "fit", "semi")):
         # queries: anywhere in the universe, including training positions (query == training sample)
         Iq = [rng.randrange(U) if rng.random() < 0.5 else rng.choice(idx) for _ in range(nq)]
         X = np.zeros((nLab, 1)); Y = np.array(lab, dtype=int)
-        if semi:
-            o = SemiSupervisedOPF(distance="euclidean")
+        feature_mode = rng.random() < 0.3
+        if feature_mode:
+            # real metric evaluated on features (incl. asymmetric ones: argument orientation matters)
+            import opfython.math.distance as _dist
+            metric = rng.choice(["euclidean", "log_squared_euclidean", "manhattan", "pearson", "neyman",
+                                 "kullback_leibler", "chi_squared", "canberra", "squared_chord"])
+            fn = _dist.DISTANCES[metric]
+            dd = rng.choice([1, 2, 3])
+            lattice = rng.random() < 0.5
+            zeros_ok = metric not in ("squared_chord",) or True
+            pts = [[float(rng.randint(0, 3)) if lattice else rng.choice([rng.uniform(0.2, 4.0), rng.uniform(0.2, 4.0), 0.0])
+                    for _ in range(dd)] for _ in range(U)]
+            P_ = np.array(pts)
+            I = None; idx = list(range(n))
+            Iq = [n + t if n + t < U else rng.randrange(U) for t in range(nq)]
+            if nq and rng.random() < 0.5:
+                Iq[0] = rng.randrange(n)
+            M = np.array([[float(fn(P_[a].copy(), P_[b].copy())) for b in range(U)] for a in range(U)])
+            X = P_[:nLab].copy(); XU = P_[nLab:n].copy(); Q = P_[Iq].copy() if nq else np.zeros((0, dd))
+            Xb, XUb, Qb = X.tobytes(), XU.tobytes(), Q.tobytes()
+            kind = "feat_" + metric
+            o = (SemiSupervisedOPF if semi else SupervisedOPF)(distance=metric)
+            if semi:
+                o.fit(X, Y, XU)
+            else:
+                o.fit(X, Y)
+            Mbytes = M.tobytes()
         else:
-            o = SupervisedOPF(distance="euclidean")
-        o.pre_computed_distance = True
-        o.pre_distances = M
-        Mbytes = M.tobytes()
-        if semi:
-            o.fit(X, Y, np.zeros((nU, 1)), I_train=None)
-        else:
-            o.fit(X, Y, I_train=(np.array(I) if I is not None else None))
+            if semi:
+                o = SemiSupervisedOPF(distance="euclidean")
+            else:
+                o = SupervisedOPF(distance="euclidean")
+            o.pre_computed_distance = True
+            o.pre_distances = M
+            Mbytes = M.tobytes()
+            if semi:
+                o.fit(X, Y, np.zeros((nU, 1)), I_train=None)
+            else:
+                o.fit(X, Y, I_train=(np.array(I) if I is not None else None))
         fobs = forest_obs(o.subgraph, n)
         nd = o.subgraph.nodes
         proto = [nd[i].status == 1 for i in range(n)]
@@ -148,18 +176,36 @@ def run(rng, tier, res=None, want=("prim", "fit", "semi")):
         plabel = [nd[i].predicted_label for i in range(n)]
         order = list(o.subgraph.idx_nodes)
         preds = []
+        feats_before = b"".join(nd[i].features.tobytes() for i in range(n))
         if nq:
-            preds = o.predict(np.zeros((nq, 1)), I_val=np.array(Iq))
+            preds = o.predict(Q) if feature_mode else o.predict(np.zeros((nq, 1)), I_val=np.array(Iq))
+            if b"".join(nd[i].features.tobytes() for i in range(n)) != feats_before:
+                viol("C09", ["predict modified the fitted model's stored features: later predictions depend on the call history"],
+                     {"stream": "fit", "kind": kind})
+        if feature_mode and not semi and rng.random() < 0.5:
+            # C07: a fresh model fitted on equal data gives the identical forest, whatever was fitted in between
+            other = SemiSupervisedOPF(distance=metric)
+            Xo = np.array([[rng.uniform(0.2, 4.0) for _ in range(dd)] for _ in range(max(3, n))])
+            Yo = np.array([t % 2 for t in range(len(Xo))], dtype=int)
+            other.fit(Xo, Yo, Xo[:2].copy())
+            again_m = SupervisedOPF(distance=metric)
+            again_m.fit(X.copy(), Y.copy())
+            if forest_obs(again_m.subgraph, n) != forest_obs(o.subgraph, n):
+                viol("C07", [f"two fresh SupervisedOPF({metric}) fits on equal data differ after an unrelated fit in between"],
+                     {"stream": "fit", "metric": metric, "X": X.tolist(), "Y": Y.tolist()})
+            res.hit("c07_refit_after_other_fit")
         rel = [nd[i].relevant for i in range(n)]
+        if feature_mode and (X.tobytes() != Xb or XU.tobytes() != XUb or Q.tobytes() != Qb):
+            viol("C07", [f"fit/predict with metric {metric} modified the caller's feature arrays"], {"stream": "fit", "metric": metric})
         # C09: the same samples alone, permuted, duplicated, after earlier calls
         if nq:
             msgs9 = []
             for i in range(nq):
-                one = o.predict(np.zeros((1, 1)), I_val=np.array([Iq[i]]))
+                one = o.predict(Q[i:i + 1]) if feature_mode else o.predict(np.zeros((1, 1)), I_val=np.array([Iq[i]]))
                 if one[0] != preds[i]:
                     msgs9.append(f"sample {i} predicted {preds[i]} in the batch but {one[0]} alone")
             perm = list(range(nq)); rng.shuffle(perm)
-            again = o.predict(np.zeros((nq, 1)), I_val=np.array([Iq[t] for t in perm]))
+            again = o.predict(Q[perm]) if feature_mode else o.predict(np.zeros((nq, 1)), I_val=np.array([Iq[t] for t in perm]))
             for a, t in enumerate(perm):
                 if again[a] != preds[t]:
                     msgs9.append(f"sample {t} predicted {preds[t]} at position {t} but {again[a]} at position {a} of a permuted batch")
@@ -198,7 +244,14 @@ def run(rng, tier, res=None, want=("prim", "fit", "semi")):
         if case < 2:
             res.samples.append({"input": line[:300], "impl": ob[:300]})
         # ---- oracles on the implementation's outputs ----
-        if kind != "asym" and len(set(lab)) >= 2:
+        symmetric_w = all(M[idx[a]][idx[b]] == M[idx[b]][idx[a]] for a in range(n) for b in range(n))
+        if len(set(lab)) >= 2 and not symmetric_w:
+            # C03 does not need symmetry: check the prediction rule with the train-first orientation d(t, x)
+            for i in range(nq):
+                d = [M[idx[t]][Iq[i]] for t in range(n)]
+                viol("C03", O.check_predict(n, cost, plabel, d, preds[i]), meta)
+            res.hit("c03_asymmetric_checked")
+        if symmetric_w and len(set(lab)) >= 2:
             wf = lambda a, b: M[idx[a]][idx[b]]  # noqa
             true_lab = lab_all
             msgs = O.check_forest(n, wf, true_lab, proto, cost, pred, plabel, order)
